@@ -16,9 +16,9 @@ func init() {
 	register(&mon.Spec{
 		ID:    "C07",
 		Level: "exploration",
-		Rule: "eleven gate scripts against p9p.ServeConn with a scripted Handler, each repeated R times with PRNG-chosen tags, message kinds, extra background requests (0-3, in one case of eight 64-133) and sub-orderings (the server's own select between 'completed' and 'context done' is random, hence the repetitions): " +
+		Rule: "twelve gate scripts against p9p.ServeConn with a scripted Handler, each repeated R times with PRNG-chosen tags, message kinds, extra background requests (0-3, in one case of eight 64-133) and sub-orderings (the server's own select between 'completed' and 'context done' is random, hence the repetitions): " +
 			"(1) flush while the handler runs, handler honours cancellation; (2) handler ignores cancellation and completes after the Rflush; (3) as 2 but the tag is reused by request B before A completes, A then B; (4) as 3 with A and B completing together; " +
-			"(5) completion and Tflush issued back-to-back in both orders; (6) flush of a tag that was never used; (7) flush naming its own tag; (8) double flush; (9) flush, then immediate reuse of the tag (must be dispatched, not refused as duplicate); (10) the client stops reading so that the server's writer and serve loop stall, then a request and the Tflush naming it arrive in one write; (11) a request is dispatched, the client stops reading so that one bulky reply occupies the server's writer, the Tflush arrives (its acknowledgement cannot be written yet), then the client either hangs up (serving must return and the flushed handler must have been cancelled) or drains (acknowledgement arrives, handler cancelled, flushed request silent). The request that gets flushed is of a PRNG-chosen kind (Tstat, Tclunk, Tremove, Topen, Tread, Twrite, Twalk, Tcreate, Twstat, Tattach, Tauth). " +
+			"(5) completion and Tflush issued back-to-back in both orders; (6) flush of a tag that was never used; (7) flush naming its own tag; (8) double flush; (9) flush, then immediate reuse of the tag (must be dispatched, not refused as duplicate); (10) the client stops reading so that the server's writer and serve loop stall, then a request and the Tflush naming it arrive in one write; (11) a request is dispatched, the client stops reading so that one bulky reply occupies the server's writer, the Tflush arrives (its acknowledgement cannot be written yet), then the client either hangs up (serving must return and the flushed handler must have been cancelled) or drains (acknowledgement arrives, handler cancelled, flushed request silent). (12) as 3, but K in {1, 254, 255, 256, 65534, 65535, 65536} other requests are served between the flush and the reuse of the tag. The request that gets flushed is of a PRNG-chosen kind (Tstat, Tclunk, Tremove, Topen, Tread, Twrite, Twalk, Tcreate, Twstat, Tattach, Tauth). " +
 			"Oracle over the wire log (reference-codec parsed) and handler observations: flushed handler's ctx is Done once the flush is answered; every Tflush gets exactly one reply; no reply to the flushed request after the flush reply (at most one before it, in script 5); a reply on a reused tag carries the new request's uid, never the flushed one's; every non-flushed request is answered exactly once. " +
 			"non-trivial = the flushed handler returned after the cancellation (late completion); distinct by (script, variant, background pattern)",
 		Assumptions: []string{
@@ -30,7 +30,7 @@ func init() {
 		Shards:    shards(8, 16),
 		Timeout:   timeouts(12*time.Minute, 90*time.Minute),
 		MinEvals:  100,
-		Required:  []string{"script:1", "script:2", "script:3", "script:4", "script:5", "script:6", "script:7", "script:8", "script:9", "script:10", "script:11", "busy_writer_then_close", "busy_writer_then_drain", "flush_with_64_or_more_outstanding", "late_completions", "flush_replies_checked", "ctx_done_observed", "reused_tag_replies_checked"},
+		Required:  []string{"script:1", "script:2", "script:3", "script:4", "script:5", "script:6", "script:7", "script:8", "script:9", "script:10", "script:11", "script:12", "busy_writer_then_close", "busy_writer_then_drain", "flush_with_64_or_more_outstanding", "late_completions", "flush_replies_checked", "ctx_done_observed", "reused_tag_replies_checked"},
 		Run:       runC07,
 	})
 }
@@ -172,6 +172,17 @@ func runC07(w *mon.W) {
 				continue
 			}
 			runC07Case(w, script, caseNo)
+		}
+	}
+	// script 12: a late completion that arrives after K other requests have been served and
+	// the tag has been reused; K around the widths of small counters
+	ks := []int{1, 254, 255, 256, 65534, 65535, 65536}
+	for rep := 0; rep < w.Scale(1, 6); rep++ {
+		for _, k := range ks {
+			caseNo++
+			if w.Mine(caseNo) {
+				runC07Distance(w, k, caseNo)
+			}
 		}
 	}
 }
@@ -630,4 +641,90 @@ func runC07BusyWriter(w *mon.W, h *srvH, sh *scriptHandler, no int) {
 	}
 	w.Count("ctx_done_observed", 1)
 	w.NT(fmt.Sprintf("s11/drain/%v", cancelledWhilePending))
+}
+
+// runC07Distance: script 12.
+func runC07Distance(w *mon.W, K, no int) {
+	sh := &scriptHandler{honour: func(p9p.Message) bool { return false }}
+	w.Case("C07 script 12 (K=%d) case #%d", K, no)
+	h, err := newSrvH(sh, 8192, 1<<20)
+	if err != nil {
+		w.Inconclusive("handshake: %v", err)
+		h.close()
+		return
+	}
+	defer h.close()
+	w.Eval()
+	w.Count("script:12", 1)
+	c := &c07{w: w, h: h, sh: sh, no: no}
+	sh.instant = func(msg p9p.Message) (p9p.Message, error, bool) {
+		if ts, ok := msg.(p9p.MessageTstat); ok && ts.Fid >= 1000 {
+			return p9p.MessageRstat{Stat: p9p.Dir{Name: "filler"}}, nil, true
+		}
+		return nil, nil, false
+	}
+	a := c.request(7)
+	if !c.settle() {
+		return
+	}
+	c.send(8, p9p.MessageTflush{Oldtag: 7})
+	if !c.settle() {
+		return
+	}
+	rs := h.take()
+	if len(rs) != 1 || rs[0].Tag != 8 || rs[0].Type != p9p.Rflush {
+		c.bad("missing-reply:flush", "script 12: the Tflush was answered with %s", describeReplies(rs))
+		return
+	}
+	w.Count("flush_replies_checked", 1)
+	// K fillers, in bursts of up to 1000 pipelined requests with distinct tags
+	c.trace = append(c.trace, fmt.Sprintf("%d filler requests served", K))
+	sent := 0
+	for sent < K {
+		n := K - sent
+		if n > 1000 {
+			n = 1000
+		}
+		var burst []byte
+		for i := 0; i < n; i++ {
+			burst = append(burst, refcodec.MustFrame(&p9p.Fcall{Type: p9p.Tstat, Tag: p9p.Tag(1000 + i), Message: p9p.MessageTstat{Fid: p9p.Fid(1000 + i)}})...)
+		}
+		h.sendRaw(burst)
+		if !c.settle() {
+			return
+		}
+		if got := len(h.take()); got != n {
+			c.bad("missing-reply:request", "script 12: %d filler requests sent, %d replies", n, got)
+			return
+		}
+		sent += n
+	}
+	b := c.request(7) // the tag is reused
+	if !c.settle() {
+		return
+	}
+	if c.inv(b) == nil {
+		c.bad("not-dispatched", "script 12: the request reusing the flushed tag after %d other requests was not dispatched; replies %s", K, describeReplies(h.take()))
+		return
+	}
+	w.Count("late_completions", 1)
+	c.complete(a)
+	if !c.settle() {
+		return
+	}
+	if rs := h.take(); len(rs) != 0 {
+		c.bad("reply-after-rflush", "script 12 (K=%d): the flushed request's late completion produced %s while the tag belongs to a newer request", K, describeReplies(rs))
+		return
+	}
+	c.complete(b)
+	if !c.settle() {
+		return
+	}
+	rs = h.take()
+	w.Count("reused_tag_replies_checked", 1)
+	if len(rs) != 1 || rs[0].Tag != 7 || uidOfReply(rs[0]) != b {
+		c.bad("wrong-reply-on-tag", "script 12 (K=%d): the request reusing the tag was answered with %s, want its own result uid-%d", K, describeReplies(rs), b)
+		return
+	}
+	w.NT(fmt.Sprintf("s12/%d", K))
 }
